@@ -23,9 +23,11 @@ func depthTerm(kind TK, n int, quiet TK, nested bool) *Term {
 		body = &Term{K: TDelay, RecvCtr: -1, Th: &Thunk{Pre: []Stmt{{Tag: 1, Ctr: 0, Delta: 1}}, If: &Cond{Tag: 2, Ctr: 1, Limit: n - 3}, Ret: leaf(quiet), Else: y}}
 	}
 	if nested {
-		// the quiet body is itself a short inner loop
-		inner := &Term{K: TWhile, RecvCtr: -1, Cond: &Cond{Tag: 9, Ctr: 3, Limit: 0}, A: leaf(TNormal)}
-		body = &Term{K: TCombine, RecvCtr: -1, A: inner, B: body}
+		// before the quiet body runs a short inner loop that iterates twice without yielding in
+		// EVERY outer iteration (its counter is rewound by the thunk in front of it)
+		inner := &Term{K: TWhile, RecvCtr: -1, Cond: &Cond{Tag: 9, Ctr: 3, Limit: 2}, A: leaf(TNormal)}
+		rewind := &Term{K: TDelay, RecvCtr: -1, Th: &Thunk{Pre: []Stmt{{Tag: 8, Ctr: 3, Delta: -3}}, Ret: inner}}
+		body = &Term{K: TCombine, RecvCtr: -1, A: rewind, B: body}
 	}
 	loop := &Term{K: kind, RecvCtr: -1, A: body}
 	if kind != TLoop {
